@@ -104,6 +104,7 @@ def use_rnl(u):
         u.bg.append(z3.ForAll([a, b], z3.And(z3.Implies(z3.And(a >= 0, b >= 0), RMUL(a, b) >= 0),
                                              z3.Implies(z3.And(a > 0, b > 0), RMUL(a, b) > 0)),
                               qid="rmul-sign", patterns=[RMUL(a, b)]))
+        u.bg.append(z3.ForAll([a], RMUL(a, a) >= 0, qid="rmul-square", patterns=[RMUL(a, a)]))
     return RMUL, RDIV
 
 
@@ -139,6 +140,7 @@ def axioms_for(used):
         out.append(sqrt_(1) == 1)
     if "ln" in used:
         fa([x, y], z3.Implies(z3.And(x > 0, y > 0, x < y), ln(x) < ln(y)), [z3.MultiPattern(ln(x), ln(y))])
+        fa([x, y], z3.Implies(z3.And(x > 0, y > 0, x <= y), ln(x) <= ln(y)), [z3.MultiPattern(ln(x), ln(y))])
         out.append(ln(1) == 0)
         fa([x], z3.Implies(x > 0, ln(1 / x) == -ln(x)), [ln(1 / x)])
         out.append(z3.And(ln(2) > z3.RealVal("0.6931"), ln(2) < z3.RealVal("0.6932")))
